@@ -188,4 +188,15 @@ def AErr.toSErr : AErr → SErr
   | .reader _ => .wkb .eof
   | .wkb e => .wkb e
 
+/-! ## goroutine stack -/
+
+/-- bytes of goroutine stack per nesting level of `wkb.Read` (Read → member reader → Read), INCLUDING
+the factor the runtime adds by doubling stacks — a measured constant: 288 B/level at 7281 levels
+(2 MiB), 419 at 10 000 (4 MiB), 335 at 100 000, 268 at 1 000 000; the judge holds every measured
+stack growth against `stackModel` (`DIFF stack-envelope`). -/
+def frameBytes : Nat := 512
+
+/-- stack needed for an input of `n` bytes: at most `n/9 + 1` nested `Read` frames (`C07_wkb_stack_frames`) -/
+def stackModel (n : Nat) : Nat := frameBytes * (n / 9 + 1)
+
 end GeomV.C07
